@@ -3,7 +3,6 @@
 //! Provides Redis Database (RDB) format persistence for durability.
 //! Supports both blocking (SAVE) and background (BGSAVE) operations.
 
-use std::collections::HashMap;
 use std::fs::{File, OpenOptions};
 use std::io::{self, Read, Write, BufWriter, BufReader};
 use std::path::{Path, PathBuf};
@@ -994,11 +993,11 @@ impl<R: Read> RdbReader<R> {
                             }
                             
                             // Read field-value pairs
-                            let mut fields = HashMap::new();
+                            let mut fields = Vec::with_capacity(field_count.min(remaining_count));
                             for _ in 0..field_count {
                                 let field = self.read_string()?;
                                 let value = self.read_string()?;
-                                fields.insert(field, value);
+                                fields.push((field, value));
                                 entry_idx += 2;
                             }
                             
